@@ -74,11 +74,39 @@ def _winit(modname):
         _MOD.worker_init()
 
 
+def _library_verdict(e):
+    """An exception raised BY the code under test at a point where the unchanged code does not raise (every check is silent there):
+    the library failed a call the check expected to succeed inside its domain - a verdict about the library, not a harness fault.
+    Returns the result dict, or None if the exception did not originate in the library."""
+    tb = e.__traceback__
+    while tb is not None and tb.tb_next is not None:
+        tb = tb.tb_next
+    origin = tb.tb_frame.f_code.co_filename if tb is not None else ''
+    lib = os.path.join(os.environ.get('PLAYBACK_VERIF_REPO') or '/repo', 'playback') + os.sep
+    if not origin.startswith(lib) or isinstance(e, HarnessError):
+        return None
+    where = '%s:%s' % (os.path.basename(origin), tb.tb_frame.f_code.co_name)
+    return dict(viol=[viol('library-raised:%s:%s' % (type(e).__name__, where), 'a library call that succeeds on the reference behaviour raised inside the explored domain',
+                           'no exception', ''.join(traceback.format_exception(type(e), e, e.__traceback__))[-1500:])], obs='library-raised:%s' % type(e).__name__)
+
+
+def run_case_guarded(mod, case):
+    try:
+        return mod.run_case(case)
+    except HarnessError:
+        raise
+    except Exception as e:
+        r = _library_verdict(e)
+        if r is None:
+            raise
+        return r
+
+
 def _wrun(chunk):
     out = []
     for idx, case in chunk:
         try:
-            r = _MOD.run_case(case)
+            r = run_case_guarded(_MOD, case)
         except HarnessError as e:
             raise RuntimeError('HARNESS ERROR: %s' % (e,))   # crosses the process boundary as an ordinary exception
         except BaseException as e:  # a crash of the harness is reported, never swallowed
@@ -197,7 +225,7 @@ def run_check(mod, tier, seed, workers=None, only_case=None):
         _winit(mod.__name__)
         mismatches = []
         for i, c in again:
-            r2 = mod.run_case(c)
+            r2 = run_case_guarded(mod, c)
             if obs_by_idx.get(i) is not None and str(r2.get('obs')) != obs_by_idx[i]:
                 mismatches.append((i, obs_by_idx[i][:200], str(r2.get('obs'))[:200]))
         ctx.notes['determinism_recheck'] = {'cases_re_executed': len(again), 'mismatches': len(mismatches)}
@@ -230,7 +258,7 @@ def finish(ctx, cases, wall, replay_mode=False):
         case, v = unlisted[0]
         if not v.get('global'):
             _winit(mod.__name__)
-            again = mod.run_case(case)
+            again = run_case_guarded(mod, case)
             if v['sig'] not in [x['sig'] for x in again.get('viol', ())]:
                 raise HarnessError('violation did not reproduce on re-execution: nondeterminism not owned (%s)' % v['sig'])
     lines = []
